@@ -214,6 +214,16 @@ def units():
           "cbmc_flags": ["--object-bits", "12"], "timeout": 600, "replay_driver": "sndfile_seek.c",
           "replay_link": "all", "replay_exclude": ["sndfile.c"],
           "trusted": ["generic dispatch contract codec_seek_c stands for psf->seek"]}]
+    U.append({"name": "sndfile.sf_error_number", "props": ["C09"], "harness": "sndfile_error.harness.c", "entry": "h_error_number",
+              "dfcc": False, "function": "sndfile.c:sf_error_number", "defines": ["-DUNIT_ERROR_NUMBER_PLAIN"],
+              "cbmc_flags": ["--object-bits", "12", "--unwind", "300"], "timeout": 900, "kind": "proof (complete unwinding over the constant message table)"})
+    for nm, fn, extra in (
+                          ("sf_error", "sf_error", {"replace": ["psf_file_valid"], "cbmc_flags": ["--object-bits", "12"]}),):
+        u = {"name": "sndfile." + nm, "props": ["C09", "C19"], "harness": "sndfile_error.harness.c", "entry": "h_" + nm[3:],
+             "enforce": fn, "function": "sndfile.c:" + fn, "timeout": 600,
+             "trusted": ["E1 snprintf model", "printf (CBMC built-in)"]}
+        u.update(extra)
+        U.append(u)
     callee = ["verif_log_printf", "psf_file_valid", "sf_version_string", "psf_get_format_simple", "psf_get_format_major",
               "psf_get_format_subtype", "psf_get_format_info", "psf_get_format_simple_count", "psf_get_format_major_count",
               "psf_get_format_subtype_count", "psf_calc_signal_max", "psf_calc_max_all_channels", "psf_get_signal_max",
